@@ -1388,7 +1388,19 @@ impl TheRing<'_> {
 
         // TODO: the above fails to handle the fact that PlainSessionKey::Unknown will not compare correctly
 
-        let is_consistent = is_sks_consistent && is_skesk_consistent && is_pkesk_consistent;
+        // the session keys found via the different mechanisms must also agree with each other
+        let mut found = pkesk_session_key
+            .iter()
+            .map(|(_, sk)| sk)
+            .chain(skesk_session_key.iter().map(|(_, sk)| sk))
+            .chain(sks_session_key.iter());
+        let is_cross_consistent = match found.next() {
+            Some(first) => found.all(|sk| sk == first),
+            None => true,
+        };
+
+        let is_consistent =
+            is_sks_consistent && is_skesk_consistent && is_pkesk_consistent && is_cross_consistent;
 
         if !is_consistent {
             bail!("inconsistent session keys detected");
